@@ -908,3 +908,50 @@ for _p in ("C01", "C02", "C03", "C04", "C05", "C06", "C07", "C08", "C09", "C10",
         B2(_p, _n)
 for _n in range(1, 7):
     B("C16", _n)
+
+
+# --------------------------------------------------------------------------- every benign patch under every property whose code it touches
+# A behaviour-preserving patch must be silent under ALL checks (DESIGN 14.1).  For each stored benign patch and each property other
+# than the one it was written for, a `cross:` variant is registered when the patch touches a file that the property's own
+# variants touch (its anchored code).  `python -m sa.selftest --cross` and the thorough tier run them.
+def _files_of_patch(path):
+    import os
+    out = set()
+    full = os.path.join(os.path.dirname(os.path.dirname(os.path.abspath(__file__))), path)
+    try:
+        for line in open(full):
+            if line.startswith("+++ b/src/urllib3/"):
+                out.add(line[len("+++ b/src/urllib3/"):].strip())
+    except OSError:
+        pass
+    return out
+
+
+def _register_cross():
+    import glob
+    import os
+    import re
+    files_of_prop = {}
+    for mu in list(MUTANTS):
+        fs = set()
+        if mu.get("file"):
+            fs.add(mu["file"])
+        for e in mu.get("edits", ()) or ():
+            fs.add(e[0])
+        if mu.get("patch"):
+            fs |= _files_of_patch(mu["patch"])
+        files_of_prop.setdefault(mu["prop"], set()).update(fs)
+    root = os.path.dirname(os.path.abspath(__file__))
+    for pf in sorted(glob.glob(os.path.join(root, "patches", "bn*_*.diff"))):
+        rel = "selftest/patches/" + os.path.basename(pf)
+        m_ = re.match(r"bn\d?_([A-Z]\d\d)_(\d+)\.diff", os.path.basename(pf))
+        own = m_.group(1) if m_ else None
+        touched = _files_of_patch(rel)
+        for prop, fs in sorted(files_of_prop.items()):
+            if prop == own or not (touched & fs):
+                continue
+            MUTANTS.append(dict(prop=prop, name=f"cross:{os.path.basename(pf)[:-5]}", patch=rel, rule=None, benign=True, cross=True))
+
+
+_register_cross()
+
